@@ -2,7 +2,7 @@
    ExtrOcamlBasic only; Z / positive / nat / N stay inductive.  No Extract
    Constant of our own. *)
 From Coq Require Import Extraction ExtrOcamlBasic.
-From Verif Require Import Base.GoPrim Model.IoUtil Model.Containers Model.SubnetSet Model.Cache Model.UrlRedact Model.Addr Std.Netip Model.Ip Std.Net Model.Reversed Model.Hosts Std.Bufio Model.Storage Model.AddrConv Std.Utf8 Model.StringUtil Std.Time Std.Json Model.Codecs Model.Sync Model.Service Model.JsonHybrid Model.Pool Model.HttpMw.
+From Verif Require Import Base.GoPrim Model.IoUtil Model.Containers Model.SubnetSet Model.Cache Model.UrlRedact Model.Addr Std.Netip Model.Ip Model.IpL1 Std.Net Model.Reversed Model.Hosts Std.Bufio Model.Storage Model.AddrConv Std.Utf8 Model.StringUtil Std.Time Std.Json Model.Codecs Model.Sync Model.Service Model.JsonHybrid Model.Pool Model.HttpMw.
 
 Extraction Language OCaml.
 Extraction "model.ml"
@@ -14,7 +14,7 @@ Extraction "model.ml"
   redact redact_err
   validate_hostname validate_domain_name validate_srv_domain_name is_valid_hostname
   validate_hostname_label is_valid_hostname_label validate_domain_label validate_tld_label validate_service_label
-  parse_addr parse_addr_port is_valid_ip_string is_valid_ip_port_string
+  parse_addr parse_addr_port is_valid_ip_string is_valid_ip_port_string is_valid_ip_string_l1 is_valid_ip_port_string_l1
   ip_from_reversed_addr ip_to_reversed_addr prefix_from_reversed_addr extract_reversed_addr
   unmarshal_text marshal_text tokens
   parse_run scan_all storage_run by_addr by_name range_names range_addrs storage_equal
